@@ -40,6 +40,9 @@ def value_sets(field, default, idx):
             d[src] = default
             out.append(d)
     out.append(dict(env=mk(1), file=mk(1), cli=mk(2)))      # two sources agreeing
+    if k == "string" and field["yaml"] != "cpu-cap":
+        # values are taken literally from every source: '$' names, '%', '#', ':' and spaces mean nothing
+        out.append(dict(env="/e/$HOME/%%d-%d" % idx, file="/f/ipfix$tpl.${USER}#x: y-%d" % idx, cli="/c/$1 ${PATH}-%d" % idx))
     return out
 
 
